@@ -235,6 +235,25 @@ fn main() {
         };
         do256(&mut t, x, y, d);
     }
+    // boundary lattice of 256-bit values (hi, lo): 0, ±1, ±2, ±10^18, ±2^64, ±2^127, ±2^128, MIN, MAX and
+    // neighbours, as x, y and d (equal operands, zero operands and a zero denominator included)
+    {
+        let lat256: [(i128, u128); 17] = [
+            (0, 0), (0, 1), (-1, u128::MAX), (0, 2), (-1, u128::MAX - 1),
+            (0, 1_000_000_000_000_000_000), (-1, (-1_000_000_000_000_000_000i128) as u128),
+            (0, 1 << 64), (0, 1 << 127), (-1, 1 << 127), (1, 0), (-1, 0),
+            (i128::MAX, u128::MAX), (i128::MAX, u128::MAX - 1), (i128::MIN, 0), (i128::MIN, 1), (0, 3),
+        ];
+        for &x in &lat256 {
+            for &y in &lat256 {
+                for &d in &lat256 {
+                    if tier_thorough || rng.below(5) == 0 || d == (0, 0) || y == d || x == d {
+                        do256(&mut t, x, y, d);
+                    }
+                }
+            }
+        }
+    }
     for &(x, y, d) in &[((i128::MIN, 0u128), (0i128, 1u128), (-1i128, u128::MAX)), ((0, 0), (0, 5), (0, 0)), ((i128::MAX, u128::MAX), (0, 1), (0, 1)), ((i128::MAX, u128::MAX), (0, 2), (0, 2))] {
         do256(&mut t, x, y, d);
     }
